@@ -1,135 +1,304 @@
-(* C18 - control hand-over: at most one controller is marked, the output names exactly that one *)
+(* C18 - control hand-over: at most one controller is marked, the output names exactly that one; with controllers whose
+   switch-off writes the output's target (kind 1) or may raise (kind 2) *)
 From Coq Require Import List Arith ZArith Bool Lia.
 Import ListNotations.
 Require Import FV.C18.Model.
 Import Co.
 
-Lemma nth_set_nth : forall (l : list bool) i k v, i < length l ->
-  nth k (set_nth i v l) false = if Nat.eqb k i then v else nth k l false.
+Lemma nth_set_false : forall (l : list bool) j k,
+  nth k (set_nth j false l) false = negb (Nat.eqb k j) && nth k l false.
 Proof.
-  induction l as [|x l IH]; intros i k v Hi; simpl in *; [lia|].
+  induction l as [|x l IH]; intros j k; simpl.
+  - destruct j, k; simpl; now rewrite ?andb_false_r.
+  - destruct j, k; simpl; auto; apply IH.
+Qed.
+
+Lemma nth_set_true : forall (l : list bool) i k, i < length l ->
+  nth k (set_nth i true l) false = Nat.eqb k i || nth k l false.
+Proof.
+  induction l as [|x l IH]; intros i k Hi; simpl in *; [lia|].
   destruct i, k; simpl; auto. apply IH. lia.
 Qed.
 
 Lemma set_nth_len : forall A (l : list A) i v, length (set_nth i v l) = length l.
 Proof. induction l; destruct i; simpl; intros; auto. Qed.
 
-(* the deactivate callbacks: afterwards only the skipped input can still be marked *)
-Local Opaque Nat.add Nat.mul.
-Lemma deact_spec : forall skip a j0,
-  let '(a', e) := deact skip j0 a in
-  length a' = length a /\
-  (forall k, nth k a' false = nth k a false && (match skip with Some i => Nat.eqb i (j0 + k) | None => false end)) /\
-  (forall k, nth k a false = true -> skip <> Some (j0 + k) -> In (10 + 2 * (j0 + k), [0%Z]) e).
+Definition on (s : state) (k : nat) : bool := nth k (act s) false.
+Definition others_off (s : state) (j : nat) : Prop := forall k, k <> j -> on s k = false.
+Definition all_off (s : state) : Prop := forall k, on s k = false.
+
+Lemma on_off : forall j s k, on (off j s) k = negb (Nat.eqb k j) && on s k.
+Proof. intros. unfold on, off; simpl. apply nth_set_false. Qed.
+
+Lemma off_single : forall s j, others_off s j -> all_off (off j s).
 Proof.
-  intros skip. induction a as [|b a IH]; intros j0; simpl.
-  - split; auto. split; intros k; destruct k; simpl; auto; discriminate.
-  - specialize (IH (S j0)). destruct (deact skip (S j0) a) as [r' e]. destruct IH as (Hl & Hn & He).
-    destruct (b && negb (match skip with Some i => Nat.eqb i j0 | None => false end)) eqn:E; simpl.
-    + apply andb_prop in E. destruct E as (-> & E). apply negb_true_iff in E.
-      split; [now rewrite Hl|]. split.
-      * intros [|k]; simpl.
-        -- rewrite Nat.add_0_r. destruct skip; auto.
-        -- rewrite Hn. now replace (S j0 + k) with (j0 + S k) by lia.
-      * intros [|k] Hk Hs; simpl in Hk.
-        -- left. now rewrite Nat.add_0_r.
-        -- right. replace (j0 + S k) with (S j0 + k) by lia. apply He; auto.
-           replace (S j0 + k) with (j0 + S k) by lia. exact Hs.
-    + split; [now rewrite Hl|]. split.
-      * intros [|k]; simpl.
-        -- rewrite Nat.add_0_r. destruct b; simpl in *; auto. destruct skip; [|discriminate].
-           apply negb_false_iff in E. now rewrite E.
-        -- rewrite Hn. now replace (S j0 + k) with (j0 + S k) by lia.
-      * intros [|k] Hk Hs; simpl in *.
-        -- subst b. simpl in E. apply negb_false_iff in E. destruct skip as [i|]; [|discriminate].
-           apply Nat.eqb_eq in E. subst i. rewrite Nat.add_0_r in Hs. congruence.
-        -- replace (j0 + S k) with (S j0 + k) by lia. apply He; auto.
-           replace (S j0 + k) with (j0 + S k) by lia. exact Hs.
-Qed.
-Local Transparent Nat.add Nat.mul.
-
-(* at most one controller is marked; the output names it; nobody marked <-> controlled_by = self *)
-Definition Inv (n : nat) (s : state) : Prop :=
-  length (act s) = n /\ by_ s <= n /\ forall j, nth j (act s) false = true <-> by_ s = S j.
-
-Definition op_wf (n : nat) (o : op) : Prop :=
-  match o with WriteT i _ => i < n | UpdT i _ => i < n | WriteO _ => True end.
-
-Lemma nth_repeat_false : forall n j, nth j (repeat false n) false = false.
-Proof. induction n; destruct j; simpl; auto. Qed.
-
-Lemma init_inv : forall n, Inv n (init n).
-Proof.
-  intros n. unfold Inv, init; simpl. rewrite repeat_length. split; auto. split; [lia|].
-  intros j. rewrite nth_repeat_false. split; discriminate.
+  intros s j H k. rewrite on_off. destruct (Nat.eqb k j) eqn:E; simpl; auto.
+  apply Nat.eqb_neq in E. auto.
 Qed.
 
-Lemma takeover : forall s i v, i < length (act s) ->
-  let s' := fst (step s (WriteT i v)) in
-  by_ s' = S i /\ length (act s') = length (act s) /\
-  (forall j, nth j (act s') false = true <-> j = i) /\
-  (forall j, j <> i -> nth j (act s) false = true -> In (10 + 2 * j, [0%Z]) (evs s')).
-Proof.
-  intros s i v Hi. simpl.
-  pose proof (deact_spec (Some i) (act s) 0) as H. destruct (deact (Some i) 0 (act s)) as [a1 e1].
-  destruct H as (Hl & Hn & He). simpl. split; auto. split; [now rewrite set_nth_len|]. split.
-  - intros j. rewrite nth_set_nth by lia. destruct (Nat.eqb j i) eqn:E.
-    + apply Nat.eqb_eq in E. tauto.
-    + apply Nat.eqb_neq in E. rewrite Hn. simpl. split; [|tauto].
-      intros H. apply andb_prop in H. destruct H as (_ & H). apply Nat.eqb_eq in H. congruence.
-  - intros j Hj Ha. right. right. right. apply in_or_app. left. apply -> in_rev.
-    apply (He j Ha). simpl. congruence.
-Qed.
+Section Loops.
+  Variable f : nat -> state -> state * bool.
 
-Lemma step_inv : forall n s o, op_wf n o -> Inv n s -> Inv n (fst (step s o)).
-Proof.
-  intros n s o Hw (Hl & Hb & Hi). destruct o as [i v | v | i v].
-  - simpl in Hw. destruct (takeover s i v) as (H1 & H2 & H3 & _); [lia|].
-    unfold Inv. rewrite H1, H2. split; auto. split; [lia|]. intros j. rewrite H3. split; congruence.
-  - simpl. destruct (by_ s) eqn:Eb.
-    + unfold Inv; simpl. repeat split; auto; try lia; apply Hi.
-    + pose proof (deact_spec None (act s) 0) as H. destruct (deact None 0 (act s)) as [a1 e1].
-      destruct H as (Hl1 & Hn & _). unfold Inv; simpl. split; [congruence|]. split; [lia|].
-      intros j. rewrite Hn, andb_false_r. split; discriminate.
-  - unfold Inv; simpl. auto.
-Qed.
+  Lemma dloop_inactive : forall skip idx s,
+    (forall k, In k idx -> skip <> Some k -> on s k = false) -> dloop f skip idx s = (s, true).
+  Proof.
+    induction idx as [|j r IH]; intros s H; simpl; auto.
+    destruct skip as [i|].
+    - destruct (Nat.eqb i j) eqn:E; simpl.
+      + apply IH. intros k Hk. apply H. now right.
+      + apply Nat.eqb_neq in E. unfold on in H. rewrite (H j); [|now left|congruence]. simpl.
+        apply IH. intros k Hk. apply H. now right.
+    - simpl. unfold on in H. rewrite (H j); [|now left|discriminate]. simpl.
+      apply IH. intros k Hk. apply H. now right.
+  Qed.
 
-Lemma run_inv : forall n ops, Forall (op_wf n) ops -> Inv n (run n ops).
-Proof.
-  intros n ops. unfold run. generalize (init_inv n). generalize (init n).
-  induction ops as [|o ops IH]; intros s HI Hw; simpl; auto.
-  inversion Hw; subst. apply IH; auto. now apply step_inv.
-Qed.
+  Lemma dloop_app : forall skip a b s,
+    dloop f skip (a ++ b) s = match dloop f skip a s with (s1, true) => dloop f skip b s1 | (s1, false) => (s1, false) end.
+  Proof.
+    induction a as [|j a IH]; intros b s; simpl; auto.
+    destruct ((match skip with Some i => Nat.eqb i j | None => false end) || negb (nth j (act s) false)); auto.
+    destruct (f j s) as [s1 [|]]; auto.
+  Qed.
 
-Lemma single_controller : forall n ops, Forall (op_wf n) ops ->
-  let s := run n ops in
-  (forall j k, nth j (act s) false = true -> nth k (act s) false = true -> j = k) /\
-  (forall j, nth j (act s) false = true <-> by_ s = S j) /\
-  (by_ s = 0 <-> forall j, nth j (act s) false = false) /\
-  by_ s <= n /\ length (act s) = n.
-Proof.
-  intros n ops Hw. destruct (run_inv n ops Hw) as (Hl & Hb & Hi). simpl. repeat split; auto.
-  - intros j k Hj Hk. apply Hi in Hj, Hk. congruence.
-  - apply Hi.
-  - apply Hi.
-  - intros H0 j. destruct (nth j (act (run n ops)) false) eqn:E; auto. apply Hi in E. congruence.
-  - intros Hall. destruct (by_ (run n ops)) eqn:E; auto.
-    assert (H : nth n0 (act (run n ops)) false = true) by (apply Hi; reflexivity).
-    rewrite Hall in H. discriminate.
-Qed.
+  (* exactly one input is marked: the loop is the call of its switch-off *)
+  Lemma dloop_single : forall skip n j0 s,
+    j0 < n -> others_off s j0 -> on s j0 = true -> skip <> Some j0 ->
+    others_off (fst (f j0 s)) j0 -> (snd (f j0 s) = true -> on (fst (f j0 s)) j0 = false) ->
+    dloop f skip (seq 0 n) s = f j0 s.
+  Proof.
+    intros skip n j0 s Hj Ho Hon Hs Hf Hf0.
+    replace n with (j0 + S (n - S j0)) by lia. rewrite seq_app, dloop_app. simpl.
+    rewrite dloop_inactive.
+    2:{ intros k Hk _. apply in_seq in Hk. apply Ho. lia. }
+    assert (E : (match skip with Some i => Nat.eqb i j0 | None => false end) = false).
+    { destruct skip as [i|]; auto. apply Nat.eqb_neq. congruence. }
+    rewrite E. unfold on in Hon. rewrite Hon. simpl.
+    destruct (f j0 s) as [s1 [|]] eqn:Ef; auto. simpl in *.
+    apply dloop_inactive. intros k Hk _. apply in_seq in Hk.
+    destruct (Nat.eq_dec k j0) as [->|Hne]; auto.
+  Qed.
+End Loops.
 
-(* update_target never changes who controls *)
-Lemma update_target_frame : forall s i v,
-  by_ (fst (step s (UpdT i v))) = by_ s /\ act (fst (step s (UpdT i v))) = act s /\ otarget (fst (step s (UpdT i v))) = v.
-Proof. intros; simpl; auto. Qed.
+Section Kinds.
+  Variable kinds : list nat.
+  Let n := length kinds.
 
-(* writing the output's own target leaves nobody marked and names self *)
-Lemma self_controlled_spec : forall n s v, Inv n s ->
-  by_ (fst (step s (WriteO v))) = 0 /\ forall j, nth j (act (fst (step s (WriteO v)))) false = false.
-Proof.
-  intros n s v HI. pose proof (step_inv n s (WriteO v) I HI) as (Hl & Hb & Hi).
-  assert (E : by_ (fst (step s (WriteO v))) = 0).
-  { simpl. destruct (by_ s); [reflexivity|]. destruct (deact None 0 (act s)). reflexivity. }
-  split; auto. intros j. destruct (nth j (act (fst (step s (WriteO v)))) false) eqn:F; auto.
-  apply Hi in F. congruence.
-Qed.
+  Definition failing (s : state) (j : nat) : bool := Nat.eqb (nth j kinds 0) 2 && nth j (cfail s) false.
+
+  (* switch-off of the only marked input while the output names self *)
+  Lemma set_inactive0_single : forall s j, others_off s j ->
+    if failing s j then set_inactive0 kinds j s = (s, false)
+    else exists s1, set_inactive0 kinds j s = (s1, true) /\ all_off s1 /\ by_ s1 = by_ s /\
+                    length (act s1) = length (act s) /\ cfail s1 = cfail s.
+  Proof.
+    intros s j Ho. unfold failing, set_inactive0.
+    destruct (nth j kinds 0) as [|[|[|k]]]; simpl.
+    - eexists; split; [reflexivity|]. split; [now apply off_single|]. simpl. now rewrite set_nth_len.
+    - eexists; split; [reflexivity|]. split; [now apply (off_single (out_write_idle 0%Z s))|]. simpl. now rewrite set_nth_len.
+    - destruct (nth j (cfail s) false); auto.
+      eexists; split; [reflexivity|]. split; [now apply off_single|]. simpl. now rewrite set_nth_len.
+    - eexists; split; [reflexivity|]. split; [now apply off_single|]. simpl. now rewrite set_nth_len.
+  Qed.
+
+  (* the output's write_target while exactly input j0 is marked and the output names somebody *)
+  Lemma out_write_single : forall v s j0, j0 < n -> others_off s j0 -> on s j0 = true -> by_ s <> 0 ->
+    if failing s j0 then out_write kinds v s = (name_self s, false)
+    else exists s1, out_write kinds v s = (s1, true) /\ all_off s1 /\ by_ s1 = 0 /\
+                    length (act s1) = length (act s) /\ cfail s1 = cfail s /\ otarget s1 = v.
+  Proof.
+    intros v s j0 Hj Ho Hon Hb. unfold out_write. destruct (by_ s) eqn:Eb; [congruence|].
+    pose proof (set_inactive0_single (name_self s) j0 Ho) as H0.
+    assert (Hd : dloop (set_inactive0 kinds) None (seq 0 n) (name_self s) = set_inactive0 kinds j0 (name_self s)).
+    { apply dloop_single; auto; try discriminate.
+      - unfold failing in H0. simpl in H0. fold (failing s j0) in H0. destruct (failing s j0).
+        + rewrite H0. exact Ho.
+        + destruct H0 as (s1 & -> & Ha & _). intros k _. apply Ha.
+      - unfold failing in H0. simpl in H0. fold (failing s j0) in H0. destruct (failing s j0).
+        + rewrite H0. discriminate.
+        + destruct H0 as (s1 & -> & Ha & _). intros _. apply Ha. }
+    fold n. rewrite Hd. unfold failing in H0. simpl in H0. fold (failing s j0) in H0. destruct (failing s j0).
+    - rewrite H0. reflexivity.
+    - destruct H0 as (s1 & -> & Ha & Hby & Hl & Hc). eexists. split; [reflexivity|].
+      split; [exact Ha|]. simpl. auto.
+  Qed.
+
+  (* general switch-off of the only marked input *)
+  Lemma set_inactive1_single : forall s j0, j0 < n -> others_off s j0 -> on s j0 = true -> by_ s <> 0 ->
+    if failing s j0 then set_inactive1 kinds j0 s = (s, false)
+    else exists s1, set_inactive1 kinds j0 s = (s1, true) /\ all_off s1 /\ length (act s1) = length (act s) /\
+                    cfail s1 = cfail s.
+  Proof.
+    intros s j0 Hj Ho Hon Hb. unfold set_inactive1.
+    pose proof (set_inactive0_single s j0 Ho) as H0.
+    pose proof (out_write_single 0%Z s j0 Hj Ho Hon Hb) as H1.
+    unfold failing in *. destruct (nth j0 kinds 0) as [|[|[|k]]] eqn:Ek; simpl in *.
+    - destruct H0 as (s1 & E & Ha & _ & Hl & Hc). eauto.
+    - destruct H1 as (s1 & -> & Ha & _ & Hl & Hc & _). eexists. split; [reflexivity|].
+      split; [apply off_single; intros k _; apply Ha|]. simpl. now rewrite set_nth_len.
+    - destruct (nth j0 (cfail s) false); auto. destruct H0 as (s1 & E & Ha & _ & Hl & Hc). eauto.
+    - destruct H0 as (s1 & E & Ha & _ & Hl & Hc). eauto.
+  Qed.
+
+  (* at most one controller is marked; the output names it; nobody marked <-> controlled_by = self *)
+  Definition Inv (s : state) : Prop :=
+    length (act s) = n /\ by_ s <= n /\ forall j, on s j = true <-> by_ s = S j.
+
+  Definition op_wf (o : op) : Prop :=
+    match o with WriteT i _ => i < n | UpdT i _ => i < n | WriteO _ => True | CFault _ => True end.
+
+  (* the finding class: the output's own target is written while the switch-off of the controlling module raises *)
+  Definition self_controlled_fails (s : state) (o : op) : bool :=
+    match o, by_ s with
+    | WriteO _, S j => failing s j
+    | _, _ => false
+    end.
+
+  Lemma nth_repeat_false : forall m j, nth j (repeat false m) false = false.
+  Proof. induction m; destruct j; simpl; auto. Qed.
+
+  Lemma init_inv : Inv (init kinds).
+  Proof.
+    unfold Inv, init, on; simpl. rewrite repeat_length. split; auto. split; [lia|].
+    intros j. rewrite nth_repeat_false. split; discriminate.
+  Qed.
+
+  Lemma inv_single : forall s j0, Inv s -> by_ s = S j0 -> j0 < n /\ others_off s j0 /\ on s j0 = true.
+  Proof.
+    intros s j0 (Hl & Hb & Hi) E. split; [lia|]. split.
+    - intros k Hk. destruct (on s k) eqn:F; auto. apply Hi in F. congruence.
+    - now apply Hi.
+  Qed.
+
+  Lemma inv_idle : forall s, Inv s -> by_ s = 0 -> all_off s.
+  Proof. intros s (Hl & Hb & Hi) E k. destruct (on s k) eqn:F; auto. apply Hi in F. congruence. Qed.
+
+  (* the last part of activate_control on a state in which nobody else is marked *)
+  Lemma activate_inv : forall s1 i v, i < n -> length (act s1) = n -> others_off s1 i ->
+    Inv {| by_ := S i; act := set_nth i true (act s1); otarget := otarget s1; ctarget := set_nth i v (ctarget s1);
+           cfail := cfail s1;
+           evs := (11 + 2 * i, [v]) :: (10 + 2 * i, [1%Z]) :: (0, [Z.of_nat (S i)]) :: evs s1 |}.
+  Proof.
+    intros s1 i v Hi Hl Ho. unfold Inv, on; simpl. rewrite set_nth_len. split; auto. split; [lia|].
+    intros j. rewrite nth_set_true by lia. destruct (Nat.eqb j i) eqn:E; simpl.
+    - apply Nat.eqb_eq in E. subst. tauto.
+    - apply Nat.eqb_neq in E. fold (on s1 j). rewrite (Ho j E). split; [discriminate|congruence].
+  Qed.
+
+  Lemma write_target_inv : forall s i v, i < n -> Inv s -> Inv (fst (step kinds s (WriteT i v))).
+  Proof.
+    intros s i v Hi HI. pose proof HI as (Hl & Hb & Hiff). simpl. fold n.
+    destruct (by_ s) as [|j0] eqn:Eb.
+    - rewrite dloop_inactive. 2:{ intros k _ _. now apply inv_idle. }
+      simpl. apply activate_inv; auto. intros k _. now apply inv_idle.
+    - destruct (inv_single s j0 HI Eb) as (Hj & Ho & Hon).
+      destruct (Nat.eq_dec j0 i) as [->|Hne].
+      + rewrite dloop_inactive. 2:{ intros k _ Hs. apply Ho. congruence. }
+        simpl. apply activate_inv; auto.
+      + assert (Hbn : by_ s <> 0) by lia.
+        pose proof (set_inactive1_single s j0 Hj Ho Hon Hbn) as H1.
+        assert (Hd : dloop (set_inactive1 kinds) (Some i) (seq 0 n) s = set_inactive1 kinds j0 s).
+        { apply dloop_single; auto; try congruence.
+          - destruct (failing s j0); [rewrite H1; exact Ho|]. destruct H1 as (s1 & -> & Ha & _). intros k _. apply Ha.
+          - destruct (failing s j0); [rewrite H1; discriminate|]. destruct H1 as (s1 & -> & Ha & _). intros _. apply Ha. }
+        rewrite Hd. destruct (failing s j0).
+        * rewrite H1. exact HI.
+        * destruct H1 as (s1 & -> & Ha & Hl1 & _). simpl. apply activate_inv; auto; [congruence|].
+          intros k _. apply Ha.
+  Qed.
+
+  Lemma write_output_inv : forall s v, self_controlled_fails s (WriteO v) = false -> Inv s ->
+    Inv (fst (step kinds s (WriteO v))).
+  Proof.
+    intros s v Hg HI. pose proof HI as (Hl & Hb & Hiff). simpl. simpl in Hg.
+    destruct (by_ s) as [|j0] eqn:Eb.
+    - unfold out_write. rewrite Eb. simpl. unfold Inv, on; simpl. rewrite Eb. auto.
+    - destruct (inv_single s j0 HI Eb) as (Hj & Ho & Hon).
+      assert (Hbn : by_ s <> 0) by lia.
+      pose proof (out_write_single v s j0 Hj Ho Hon Hbn) as H1. rewrite Hg in H1.
+      destruct H1 as (s1 & -> & Ha & Hb1 & Hl1 & _). simpl.
+      unfold Inv. rewrite Hl1, Hb1. split; auto. split; [lia|]. intros j. rewrite Ha. split; discriminate.
+  Qed.
+
+  Lemma step_inv : forall s o, op_wf o -> self_controlled_fails s o = false -> Inv s -> Inv (fst (step kinds s o)).
+  Proof.
+    intros s o Hw Hg HI. destruct o as [i v | v | i v | fl].
+    - now apply write_target_inv.
+    - now apply write_output_inv.
+    - exact HI.
+    - exact HI.
+  Qed.
+
+  Fixpoint run_ok (s : state) (ops : list op) : Prop :=
+    match ops with
+    | [] => True
+    | o :: r => op_wf o /\ self_controlled_fails s o = false /\ run_ok (fst (step kinds s o)) r
+    end.
+
+  Lemma fold_inv : forall ops s, run_ok s ops -> Inv s -> Inv (fold_left (fun s o => fst (step kinds s o)) ops s).
+  Proof.
+    induction ops as [|o ops IH]; intros s Hr HI; simpl; auto.
+    destruct Hr as (Hw & Hg & Hr). apply IH; auto. now apply step_inv.
+  Qed.
+
+  Lemma single_controller : forall ops, run_ok (init kinds) ops ->
+    let s := run kinds ops in
+    (forall j k, nth j (act s) false = true -> nth k (act s) false = true -> j = k) /\
+    (forall j, nth j (act s) false = true <-> by_ s = S j) /\
+    (by_ s = 0 <-> forall j, nth j (act s) false = false) /\
+    by_ s <= n /\ length (act s) = n.
+  Proof.
+    intros ops Hr. destruct (fold_inv ops (init kinds) Hr init_inv) as (Hl & Hb & Hi). simpl. unfold run.
+    set (s := fold_left (fun s o => fst (step kinds s o)) ops (init kinds)) in *. unfold on in Hi.
+    repeat split; auto.
+    - intros j k Hj Hk. apply Hi in Hj, Hk. congruence.
+    - apply Hi.
+    - apply Hi.
+    - intros H0 j. destruct (nth j (act s) false) eqn:E; auto. apply Hi in E. congruence.
+    - intros Hall. destruct (by_ s) eqn:E; auto.
+      assert (H : nth n0 (act s) false = true) by (apply Hi; reflexivity).
+      rewrite Hall in H. discriminate.
+  Qed.
+
+  (* taking over in a consistent state: either the switch-off of the controlling module raised and NOTHING changed
+     (refused take-over), or the new controller is the only one marked and the output names it *)
+  Lemma takeover : forall s i v, i < n -> Inv s ->
+    let '(s', r) := step kinds s (WriteT i v) in
+    match r with
+    | ROk _ => by_ s' = S i /\ (forall j, nth j (act s') false = true <-> j = i)
+    | RErr _ => s' = s /\ exists j, by_ s = S j /\ j <> i /\ failing s j = true
+    end.
+  Proof.
+    intros s i v Hi HI. pose proof (write_target_inv s i v Hi HI) as HI'.
+    pose proof HI as (Hl & Hb & Hiff). simpl in *. fold n in HI'. fold n.
+    destruct (by_ s) as [|j0] eqn:Eb.
+    - rewrite dloop_inactive in *. 2,3: intros k _ _; now apply inv_idle.
+      simpl in *. destruct HI' as (_ & _ & H). split; auto.
+      intros j. unfold on in H. simpl in H. rewrite H. split; congruence.
+    - destruct (inv_single s j0 HI Eb) as (Hj & Ho & Hon).
+      destruct (Nat.eq_dec j0 i) as [->|Hne].
+      + rewrite dloop_inactive in *. 2,3: intros k _ Hs; apply Ho; congruence.
+        simpl in *. destruct HI' as (_ & _ & H). split; auto.
+        intros j. unfold on in H. simpl in H. rewrite H. split; congruence.
+      + assert (Hbn : by_ s <> 0) by lia.
+        pose proof (set_inactive1_single s j0 Hj Ho Hon Hbn) as H1.
+        assert (Hd : dloop (set_inactive1 kinds) (Some i) (seq 0 n) s = set_inactive1 kinds j0 s).
+        { apply dloop_single; auto; try congruence.
+          - destruct (failing s j0); [rewrite H1; exact Ho|]. destruct H1 as (s1 & -> & Ha & _). intros k _. apply Ha.
+          - destruct (failing s j0); [rewrite H1; discriminate|]. destruct H1 as (s1 & -> & Ha & _). intros _. apply Ha. }
+        rewrite Hd in *. destruct (failing s j0) eqn:Ef.
+        * rewrite H1. split; auto. exists j0. auto.
+        * destruct H1 as (s1 & E1 & Ha & Hl1 & _). rewrite E1 in *. simpl in *.
+          destruct HI' as (_ & _ & H). split; auto.
+          intros j. unfold on in H. simpl in H. rewrite H. split; congruence.
+  Qed.
+
+  (* from a consistent state the output's own write fails exactly in the finding class, and then the output already
+     names self while the controller is still marked *)
+  Lemma write_output_fails : forall s v j, Inv s -> by_ s = S j -> failing s j = true ->
+    step kinds s (WriteO v) = (name_self s, RErr 3).
+  Proof.
+    intros s v j HI Eb Hf. destruct (inv_single s j HI Eb) as (Hj & Ho & Hon).
+    assert (Hbn : by_ s <> 0) by lia.
+    pose proof (out_write_single v s j Hj Ho Hon Hbn) as H1. rewrite Hf in H1. simpl. now rewrite H1.
+  Qed.
+End Kinds.
